@@ -245,7 +245,9 @@ def crash_k(point, n1, m1):
 def line_after_region(info):
     """a line of save() executed after the guarded region was left (a `finally:` / `else:` clause or code behind the
     try statement - the pinned source has none): no micro-step of the model corresponds to a fault there"""
-    return LM['try_line'] is not None and not line_in_try(info) and info['fh_started'] > 0
+    if LM['try_line'] is None:
+        return info['closed'] >= 2 and info['fh_started'] == info['fh_done']
+    return not line_in_try(info) and info['fh_started'] > 0
 
 
 def line_k(info, n1, m1):
@@ -284,7 +286,9 @@ def line_in_try(info):
     site in save) lies in the try body - observed on the stack, so helpers extracted from save() are classified by
     where they are called from"""
     if LM['try_line'] is None:
-        return False
+        # no try statement in save() (the cleanup is arranged some other way, e.g. an ExitStack callback): once a file
+        # of the entry has been opened a correct save must be protected - if it is not, the monitor sees the leftover
+        return info['fh_started'] > 0
     if info.get('save_lineno') is not None:
         return LM['try_line'] <= info['save_lineno'] <= LM['try_body_last']
     if info['func'] == 'save' and info['file'] == 'cache.py':
